@@ -42,4 +42,55 @@ PROPS = {
         real=["tailer.Tailer (AddPattern, pollers, TailPath, forwarders, shutdown)", "logstream.fileStream", "logstream.LineReader", "kernel filesystem (real files)", "Go time (fake clock of the bubble)"],
         stub=["waker.Waker (simulated: ticks are controller actions)"],
     ),
+    "C09": dict(
+        level="exploration",
+        quick=dict(runs=20000),
+        thorough=dict(runs=600000),
+        rule=("each run = one metric (kind x value type from 8 combinations, 0-3 keys) + one generated history of 5-40 operations "
+              "{GetDatum, Set/Inc/Dec/Observe with explicit or zero timestamp, RemoveDatum, ExpireDatum, wrong-arity calls, RemoveOldestDatum, "
+              "clock advance} over a universe of 6 tuples; after every operation the metric is read back through EmitLabelSets (emitter goroutine "
+              "under the scheduler, read lock held), FindLabelValueOrNil and json.Marshal and compared with an insertion-ordered list model. "
+              "Non-trivial: >= 2 tuples created and at least one live tuple deleted; distinct = distinct (kind, type, arity, operation history)."),
+        assumptions=[
+            "the timestamp of a datum that was created but never updated is unspecified and not compared",
+            "tuple values are plain strings (separator/escape characters belong to C08)",
+            "single client: the concurrent behaviour of the same API is C11's subject",
+        ],
+        expect_probes=["create", "delete_live", "delete_absent", "expire_absent", "wrong_arity", "remove_oldest", "update_with_zero_time"],
+        real=["metrics.Metric", "datum.Int/Float/String/Buckets", "EmitLabelSets goroutine", "Go time (fake clock)"],
+        stub=[],
+    ),
+    "C10": dict(
+        level="exploration",
+        quick=dict(runs=20000),
+        thorough=dict(runs=600000),
+        rule=("each run = one store of 1-3 metrics with 0-6 data each, limits {none, =size, <size, >size}, expiry marks, and explicit timestamps "
+              "placed relative to the GC instant T: exactly at / 1ns below / 1ns above the expiry boundary, far past, in the future of T, tied; "
+              "GC runs either as a direct Gc() call by a task at T or through the real StartGcLoop ticker while the controller advances the fake "
+              "clock (every tick's pass is judged at its own instant). Oracle: relational model of the statement (limit phase with ties free, "
+              "then expiry, nothing else changes). Non-trivial: something was removed or a metric was over its limit; distinct = distinct store descriptions."),
+        assumptions=["every datum has been updated at least once before GC (timestamps are explicit)", "integer counters only: GC does not look at values"],
+        expect_probes=["over_limit", "age_exactly_expiry", "timestamp_in_future_of_T", "gc_tick"],
+        real=["metrics.Store (Add, Range, Gc, StartGcLoop ticker goroutine)", "metrics.Metric (RemoveOldestDatum, RemoveDatum, ExpireDatum)", "Go time/ticker (fake clock)"],
+        stub=[],
+    ),
+    "C18": dict(
+        level="exploration",
+        quick=dict(runs=5000),
+        thorough=dict(runs=150000),
+        rule=("each run = 1-3 glob patterns drawn from 8 overlapping ones (absolute and relative, '*', '?', directory wildcards, a path with '..'), "
+              "an optional ignore regexp, a small real directory tree and a history of 1-8 actions {create, delete, rename to a free name, replace, "
+              "mkdir/rmdir, rename directory, a directory whose name matches a file pattern, poll}, each followed by an observation; then a unique "
+              "probe line is appended to every file of the tree. All interleavings of the pattern pollers (one per pattern, racing to TailPath the same "
+              "path), streams and forwarders are sampled by the seeded scheduler. Non-trivial: >= 2 files tailed at once and the tree changed; "
+              "distinct = distinct (patterns, ignore, history, schedule signature)."),
+        assumptions=[
+            "the sandbox runs as root, so unreadable files cannot be produced and are not covered",
+            "'matches a pattern' is path/filepath.Match on the absolute path (the standard library's glob definition)",
+            "renaming a file onto an existing tailed path is a rotation of that path (C16) and is not generated here",
+        ],
+        expect_probes=["two_or_more_tailed", "create", "delete", "rename", "replace", "directory_change", "directory_matching_pattern"],
+        real=["tailer.Tailer (AddPattern, Ignore, pollLogPattern, doPatternGlob, TailPath, forwarder/removal)", "logstream.fileStream", "kernel filesystem", "log_count expvar"],
+        stub=["waker.Waker (simulated ticks)"],
+    ),
 }
